@@ -9,6 +9,8 @@ exactly what the input assigns.
 -/
 import Precis.Model.Generators
 import Precis.Model.Codepoints
+import Precis.Lemmas.GenSetAux
+import Precis.Lemmas.GenRunAux
 namespace Precis.C15
 open Precis Precis.Gen'
 
@@ -37,27 +39,31 @@ theorem addCodepoints_denotes (a b : Nat) (vec : List Cps) (cp : Nat) (h : a ≤
 exactly the code points of the rows with the property; searchable -/
 theorem set_table_exact (p : URow → Bool) (rows : List URow) (h : WF rows) :
     ∃ t, setTable p rows = some t ∧ sortedTable t = true ∧ ∀ cp, memL cp t = assigned p rows cp := by
-  sorry
+  have h' : GenSetAux.WFc rows := by
+    induction rows using WF.induct <;> simp_all [WF, GenSetAux.WFc]
+  exact GenSetAux.set_table_exact p rows h'
 
 /-- the unassigned-gap table: exactly the code points of Unicode that no row contains; searchable
 (it may contain empty entries `start = end + 1` after a range, which never match: C18) -/
 theorem unassigned_exact (rows : List URow) (h : WF rows) :
     ∃ t, unassignedTable rows = some t ∧ sortedTable t = true ∧
       ∀ cp, memL cp t = (decide (cp ≤ 0x10FFFF) && !assigned (fun _ => true) rows cp) := by
-  sorry
+  exact GenRunAux.unassigned_exact WF (fun _ h => h) (fun _ _ _ h => h) rows h
 
 /-- the bidirectional class table: every code point of a row is found with that row's class, no other
 code point is found; searchable, so no code point is covered by two entries with different values -/
 theorem bidi_exact (rows : List URow) (h : WF rows) :
     ∃ t, bidiTable rows = some t ∧ sortedTable (t.map (·.1)) = true ∧
       ∀ cp, lookupL cp t = (rows.find? (fun r => r.cps.eqCp cp)).map (·.bidi) := by
-  sorry
+  exact GenRunAux.bidi_exact WF (fun _ h => h) (fun _ _ _ h => h) rows h
 
 /-- the width-mapping table: the rows tagged wide/narrow with their first mapping code point -/
 theorem width_exact (rows : List URow) (h : WF rows) :
     sortedTable ((widthTable rows).map (·.1)) = true ∧
       ∀ cp, lookupL cp (widthTable rows) = ((rows.find? (fun r => r.cps.eqCp cp)).bind (·.width)) := by
-  sorry
+  have h' : GenSetAux.WFc rows := by
+    induction rows using WF.induct <;> simp_all [WF, GenSetAux.WFc]
+  exact GenSetAux.width_exact rows h'
 
 /-- non-vacuity and the two historic defects as regression examples: class change after two stored
 ranges, and a trailing run -/
